@@ -486,8 +486,24 @@ bool Model::do_passwd(int c, const JV &req, const JV &params) {
 	if (it->second.readonly || !(p.user == u->s || admin)) { host->probe("passwd_refused"); respond(c, req, Exp::R_ERR_DAEMON, "C20", "passwd not allowed"); return true; }
 	if (!it->second.has_password) { respond(c, req, Exp::R_ERR_DAEMON, "C20", "no password entry"); return true; }
 	host->probe(p.user == u->s ? "passwd_self" : "passwd_by_admin");
-	it->second.password = pw->s;
-	respond(c, req, Exp::R_TRUE, "C20", "passwd ok");
+	std::string oldpw = it->second.password, user = u->s, newpw = pw->s;
+	if (!passwd_may_fail) {
+		it->second.password = newpw;
+		host->password_changed(user, oldpw, newpw, false);
+		respond(c, req, Exp::R_TRUE, "C20", "passwd ok");
+		return true;
+	}
+	// a file-system fault may hit this change: it is answered with success (then it happened) or with an error (then it did not)
+	const JV *rid = req.get("id");
+	if (!rid || (rid->t != JV::Str && rid->t != JV::Num)) { host->harness_error("passwd under file-system faults needs a request id"); return true; }
+	host->password_changed(user, oldpw, newpw, true);
+	int idx = host->password_changes() - 1;
+	int d = (int)decisions.size();
+	Decision dec; dec.what = "passwd under file-system fault";
+	dec.commit = [this, user, newpw, idx](bool ok) { if (ok) users[user].password = newpw; host->password_resolved(idx, ok); };
+	decisions.push_back(dec);
+	Exp x; x.kind = Exp::RESP; x.rk = Exp::R_EITHER; x.id = *rid; x.prop = "C20"; x.why = "passwd (either outcome under an injected file-system fault)"; x.group = group_ctr; x.rank = 1; x.decision = d;
+	host->expect(c, x);
 	return true;
 }
 
